@@ -262,23 +262,23 @@ func checkC05(c *Ctx) {
 			c.Undecided("R4", "dial site", hc.Pos(), "no dial call")
 			return
 		}
-		// success branch: err == nil
-		var okB *ssa.BasicBlock
-		for _, r := range *dial.Referrers() {
-			if ex, ok := r.(*ssa.Extract); ok && ex.Index == 1 {
-				for _, rr := range *ex.Referrers() {
-					if bo, ok := rr.(*ssa.BinOp); ok && bo.Op == token.NEQ && isNilConst(bo.Y) {
-						for _, u := range *bo.Referrers() {
-							if iff, ok := u.(*ssa.If); ok {
-								okB = iff.Block().Succs[1]
-							}
-						}
+		// from the point where the concurrent direction is started (the go statement whose function runs the relay)
+		var startGo ssa.Instruction
+		eachInstr(hc, func(_ *ssa.BasicBlock, _ int, in ssa.Instruction) {
+			g, ok := in.(*ssa.Go)
+			if !ok {
+				return
+			}
+			for _, f := range p.callees(g) {
+				for _, h := range append([]*ssa.Function{f}, staticCalleesDeep(f, 1)...) {
+					if h == pipe {
+						startGo = in
 					}
 				}
 			}
-		}
-		if okB == nil {
-			c.Undecided("R4", "dial success branch", dial.Pos(), "cannot find the err != nil test")
+		})
+		if startGo == nil {
+			c.Undecided("R4", "concurrent direction", dial.Pos(), "no go statement starts the second relay direction")
 			return
 		}
 		// the join: receive on a channel closed by the goroutine that runs the other direction
@@ -289,7 +289,7 @@ func checkC05(c *Ctx) {
 			}
 			return localLatchClosedByRelay(hc, u.X, pipe)
 		}
-		path := findPath(ipos{okB, -1}, pathQuery{target: isReturn, avoid: isJoin})
+		path := findPath(posOf(startGo), pathQuery{target: isReturn, avoid: isJoin})
 		if path != nil {
 			c.Fail("R4", "join on the second direction before returning", dial.Pos(), "a return path after a successful dial skips the join: the deferred upstream Close cuts the direction that is still relaying ("+p.pathString(path)+")")
 		} else {
@@ -344,9 +344,53 @@ func checkC05(c *Ctx) {
 			}
 		})
 		c.Check(okRet, "R5", site+" returns the underlying n, err", under.Pos(), "results are the underlying call's results", "the wrapper alters the byte count or swallows the error of the underlying call: the copy loop mis-slices its buffer or ignores a failure")
+		// the idle timeout is re-armed by every call: with a positive timeout no path reaches the underlying call
+		// without passing through the deadline call (an armed deadline that is not renewed fires in the middle of an
+		// active stream)
+		zeroEdge := map[*ssa.BasicBlock]int{} // If block -> successor index taken when the timeout is <= 0
+		eachInstr(fn, func(_ *ssa.BasicBlock, _ int, in ssa.Instruction) {
+			bo, ok := in.(*ssa.BinOp)
+			if !ok {
+				return
+			}
+			k, isC := constInt(bo.Y)
+			f, _ := loadedField(bo.X)
+			if !isC || k != 0 || f == nil || !strings.HasSuffix(strings.ToLower(f.Name()), "timeout") {
+				return
+			}
+			for _, r := range *bo.Referrers() {
+				iff, ok := r.(*ssa.If)
+				if !ok {
+					continue
+				}
+				switch bo.Op {
+				case token.GTR, token.NEQ:
+					zeroEdge[iff.Block()] = 1
+				case token.LEQ, token.EQL:
+					zeroEdge[iff.Block()] = 0
+				}
+			}
+		})
+		isArm := func(x ssa.Instruction) bool {
+			cc := callOf(x)
+			return cc != nil && cc.IsInvoke() && cc.Method.Name() == m.deadline
+		}
+		path := findPath(entryPos(fn), pathQuery{
+			target: func(x ssa.Instruction) bool { return x == ssa.Instruction(under) },
+			avoid:  isArm,
+			edge: func(b *ssa.BasicBlock, k int) bool {
+				if z, ok := zeroEdge[b]; ok && z == k {
+					return false
+				}
+				return true
+			},
+		})
+		c.Check(path == nil, "R5", site+" re-arms its deadline on every call", under.Pos(), "with a positive timeout every path to the underlying call sets the deadline", "with a positive timeout a path reaches the underlying "+m.under+" without renewing the deadline ("+p.pathString(path)+"): the deadline armed by an earlier call expires in the middle of an active stream, the relay sees a timeout and ends that direction early - the receiver gets a clean but premature end-of-stream")
 	}
-	c.Expect("R5", 6)
+	c.Expect("R5", 8)
 	checkNoDiscardingSockopt(c, "R6")
+	c.Rule("R7", "every goroutine started in a loop (the accept loop) gets that iteration's values: no closure captures a variable declared outside the loop and assigned inside it")
+	checkLoopGoroutineCapture(c, "R7")
 }
 
 // cellKey resolves a connection value through single-assignment local cells / captured variables by name.
@@ -508,4 +552,76 @@ func checkNoDiscardingSockopt(c *Ctx, rule string) {
 	}
 	c.Expect(rule, 5)
 	_ = n
+}
+
+// checkLoopGoroutineCapture (C05.R7): a goroutine started inside a loop must get the values of that iteration. A
+// closure that captures a variable declared *outside* the loop and assigned *inside* it reads whatever the loop has
+// stored by the time the goroutine runs: in the accept loop the first connection is then never handled and the next
+// one is relayed by two handlers at once (its bytes are split over two backend connections).
+func checkLoopGoroutineCapture(c *Ctx, rule string) {
+	p := c.P
+	n := 0
+	for _, fn := range p.SrcFns {
+		if p.isTestFn(fn) || !isModFn(fn) {
+			continue
+		}
+		reach := func(from, to *ssa.BasicBlock) bool {
+			seen := map[*ssa.BasicBlock]bool{}
+			var dfs func(b *ssa.BasicBlock) bool
+			dfs = func(b *ssa.BasicBlock) bool {
+				for _, s := range b.Succs {
+					if s == to {
+						return true
+					}
+					if !seen[s] {
+						seen[s] = true
+						if dfs(s) {
+							return true
+						}
+					}
+				}
+				return false
+			}
+			return dfs(from)
+		}
+		perFn := 0
+		eachInstr(fn, func(gb *ssa.BasicBlock, _ int, in ssa.Instruction) {
+			g, ok := in.(*ssa.Go)
+			if !ok || !reach(gb, gb) {
+				return // not in a loop
+			}
+			mc, ok := g.Call.Value.(*ssa.MakeClosure)
+			if !ok {
+				return
+			}
+			n++
+			perFn++
+			site := fmt.Sprintf("go statement #%d in a loop of %s", perFn, fnKey(fn))
+			bad := ""
+			for _, b := range mc.Bindings {
+				al, ok := b.(*ssa.Alloc)
+				if !ok {
+					continue
+				}
+				ab := al.Block()
+				if ab == nil || reach(gb, ab) && reach(ab, gb) {
+					continue // allocated per iteration
+				}
+				for _, r := range *al.Referrers() {
+					st, ok := r.(*ssa.Store)
+					if !ok || st.Addr != ssa.Value(al) {
+						continue
+					}
+					sb := st.Block()
+					if sb == gb || (reach(sb, gb) && reach(gb, sb)) {
+						bad = al.Comment
+					}
+				}
+			}
+			c.Check(bad == "", rule, site, in.Pos(), "captures only per-iteration variables (or passes them as arguments)", "the goroutine captures variable "+bad+", which is declared outside the loop and assigned in every iteration: it reads whatever the loop has stored by the time it runs - one accepted connection is never handled and another is handled twice")
+		})
+	}
+	if n == 0 {
+		c.Note("no goroutine is started from a closure inside a loop")
+	}
 }
